@@ -40,6 +40,7 @@ class Hub(object):
         self._subscriptions = WeakKeyDictionary()
 
         self._paused = False
+        self._delay_depth = 0
         self._queue = []
 
         self._ignore = Counter()
@@ -199,15 +200,23 @@ class Hub(object):
 
     @contextmanager
     def delay_callbacks(self):
+        # Delay blocks can be nested: the queued messages are only delivered
+        # once the outermost block is closed.
+        self._delay_depth += 1
         self._paused = True
         try:
             yield
         finally:
-            self._paused = False
-            # TODO: could de-duplicate messages here
-            for message in self._queue:
-                self.broadcast(message)
-            self._queue = []
+            self._delay_depth -= 1
+            if self._delay_depth == 0:
+                self._paused = False
+                # Detach the queue before delivering it, so that handlers
+                # which broadcast or open delay blocks themselves start from
+                # an empty queue and no message can be delivered twice.
+                queue, self._queue = self._queue, []
+                # TODO: could de-duplicate messages here
+                for message in queue:
+                    self.broadcast(message)
 
     def broadcast(self, message):
         """Broadcasts a message to all subscribed objects.
